@@ -377,3 +377,75 @@ MUTANTS += [
  dict(id="C18-http-scrape-more-digits", props=["C18"], expect={"C18": r"fit#http#scrape|stream#http"},
       edits=[("crates/http_protocol/src/response.rs", "            bytes_written += output.write(b\"e10:downloadedi0e10:incompletei\")?;", "            bytes_written += output.write(b\"e10:downloadedi00000000000000000000000000000000000000000000000000000000000000000000000000000000e10:incompletei\")?;")]),
 ]
+
+MUTANTS += [
+ dict(id="C19-udp-cleaning-handle-not-pushed", props=["C19"], expect={"C19": r"watched#aquatic_udp$"},
+      edits=[(US+"lib.rs", "        join_handles.push((WorkerType::Cleaning, handle));", "        let _ = handle;")]),
+ dict(id="C19-http-ok-ok-continues", props=["C19"], expect={"C19": r"watchdog#aquatic_http#finished_means_err"},
+      edits=[("crates/http/src/lib.rs", """                    Ok(Ok(())) => {
+                        return Err(anyhow::anyhow!("{} stopped", worker_type));
+                    }""", """                    Ok(Ok(())) => {
+                        ::log::info!("{} stopped", worker_type);
+                        break;
+                    }""")]),
+ dict(id="C19-ws-sleep-50", props=["C19"], expect={"C19": r"watchdog#aquatic_ws#poll_interval"},
+      edits=[("crates/ws/src/lib.rs", "        sleep(Duration::from_secs(5));", "        sleep(Duration::from_secs(50));")]),
+ dict(id="C19-http-timer-returns-none-on-error", props=["C19"], expect={"C19": r"swallow#timers_repeat"},
+      edits=[(HS+"mod.rs", """            } else {
+                ::log::warn!("Could not update peer_valid_until due to monotonicity error. Peers may be removed earlier than they should.");
+            }
+
+            Some(Duration::from_secs(1))""", """            } else {
+                ::log::warn!("Could not update peer_valid_until due to monotonicity error. Peers may be removed earlier than they should.");
+                return None;
+            }
+
+            Some(Duration::from_secs(1))""")]),
+ dict(id="C19-udp-catch-unwind-around-socket-worker", props=["C19"], expect={"C19": r"swallow#catch_unwind|watched#aquatic_udp#closure_results"},
+      edits=[(US+"lib.rs", """            .spawn(move || {
+                workers::socket::run_socket_worker(
+                    config,
+                    state,
+                    statistics,
+                    statistics_sender,
+                    connection_validator,
+                    priv_droppers,
+                )
+            })""", """            .spawn(move || {
+                loop {
+                    let (config, state, statistics, statistics_sender, connection_validator, priv_droppers) = (config.clone(), state.clone(), statistics.clone(), statistics_sender.clone(), connection_validator.clone(), priv_droppers.clone());
+                    let r = std::panic::catch_unwind(std::panic::AssertUnwindSafe(move || workers::socket::run_socket_worker(
+                        config,
+                        state,
+                        statistics,
+                        statistics_sender,
+                        connection_validator,
+                        priv_droppers,
+                    )));
+                    if let Ok(r) = r { return r; }
+                }
+            })""")]),
+ dict(id="C19-ws-swarm-result-swallowed", props=["C19"], expect={"C19": r"watched#aquatic_ws#closure_results|watchdog"},
+      edits=[("crates/ws/src/lib.rs", """                    .run(workers::swarm::run_swarm_worker(
+                        config,
+                        state,
+                        control_mesh_builder,
+                        request_mesh_builder,
+                        response_mesh_builder,
+                        server_start_instant,
+                        i,
+                    ))
+            })""", """                    .run(workers::swarm::run_swarm_worker(
+                        config,
+                        state,
+                        control_mesh_builder,
+                        request_mesh_builder,
+                        response_mesh_builder,
+                        server_start_instant,
+                        i,
+                    )).ok();
+                loop { sleep(Duration::from_secs(3600)); }
+            })""")]),
+ dict(id="C19-udp-statistics-spawned-detached", props=["C19"], expect={"C19": r"watched#aquatic_udp$"},
+      edits=[(US+"lib.rs", "        join_handles.push((WorkerType::Statistics, handle));", "        drop(handle);")]),
+]
